@@ -13,14 +13,18 @@ META = {
 }
 
 THEOREMS = [
+    "Qentem.Props.JsonTables.notation_tables",
+    "Qentem.Props.JsonTables.replacement_matches_escapeJson",
     "Qentem.Props.C05.parse_no_fault",
     "Qentem.Props.C05.result_complete_or_undefined",
     "Qentem.Props.C05.fuel_bound",
+    "Qentem.Json.unEscapeDep_ok",
 ]
+OPEN = ["DepsSafe (jsonDeps w) for the StringToNumber model (never faults, consumed offset inside the buffer) — requested from the C09 area; until then parse_no_fault is instantiated for the UnEscape half only"]
 
 
 def run(ctx):
-    drv, h = _json.setup(ctx, ["Qentem.Props.C05"], THEOREMS)
+    drv, h = _json.setup(ctx, ["Qentem.Props.C05", "Qentem.Proofs.JsonDeps", "Qentem.Props.JsonTables"], THEOREMS, OPEN)
     if not h:
         return
     rng = ctx.rng
